@@ -171,7 +171,8 @@ WPRIMS = {
     "astype": ("deep", "shallow", "deep"),                # x.astype(t)
     "astype(nocopy)": ("maybe", "shallow", "deep"),       # x.astype(t, copy=False)
     "arith": ("fresh", "shallow", "deep"),                # x * 2, -x, x > 0, np.sqrt(x), x.where(c), x.clip(…), x.max()
-    "viewlike": ("shallow", "shallow", "deep"),           # x.T, x.isel(…), x.rename(…), x.assign_coords(…), x.to_dataset()
+    "viewlike": ("maybe", "maybe", "maybe"),              # x.T, x.isel(…), x.rename(…), x.assign_coords(…), x.to_dataset():
+    #                                                       the same Variable object (attrs dict included) or a view of it
     "like": ("fresh", "deep", "deep"),                    # xr.zeros_like(x) …
     "opaque": ("shallow", "shallow", "shallow"),          # a value the translator knows nothing about: any component
     #                                                       may be any part of what it was made from
@@ -180,12 +181,14 @@ MODE_LEAN = {"fresh": ".fresh", "deep": ".deep", "shallow": ".shallow", "maybe":
 # xarray methods by name (receiver not known to be a bare ndarray)
 XMETHODS = {}
 for _n in """where clip round fillna isnull notnull cumsum cumprod rank min max sum mean std var prod median quantile
-count argmin argmax idxmin idxmax interp interp_like reindex reindex_like ffill bfill diff shift roll dot conj
-searchsorted argsort""".split():
+count argmin argmax idxmin idxmax interp interp_like reindex reindex_like ffill bfill dot
+searchsorted argsort all any dropna isin combine_first cumulative_integrate differentiate integrate drop_duplicates
+drop_attrs""".split():
     XMETHODS[_n] = "arith"
 for _n in """transpose squeeze isel sel rename set_index reset_index drop drop_vars drop_sel drop_isel assign_coords
 assign_attrs expand_dims stack unstack chunk unify_chunks compute persist load to_dataset to_array to_dataarray head tail
-thin swap_dims reset_coords set_coords pipe as_numpy sortby broadcast_like""".split():
+thin swap_dims reset_coords set_coords pipe as_numpy sortby broadcast_like diff shift roll conj conjugate pad query
+drop_encoding reset_encoding drop_indexes reorder_levels set_xindex""".split():
     XMETHODS[_n] = "viewlike"
 # numpy functions that hand a DataArray back when they are given one (ufuncs and functions that dispatch to the
 # method of the same name); probed by harness/corr_C10.py
